@@ -249,11 +249,34 @@ pub fn sites(tier: Tier) -> Vec<Site> {
                 }
             }
         }
+        // and a third stratum: revisions around every power of two a conversion could stumble over (up to
+        // usize::MAX), and numbers one float apart
+        {
+            let mut revs: Vec<u128> = vec![];
+            for k in [8u32, 16, 24, 31, 32, 33, 52, 53, 54, 63, 64] {
+                for d in [-2i128, -1, 0, 1, 2] {
+                    let x = (1i128 << k) + d;
+                    if x >= 0 && x <= usize::MAX as i128 { revs.push(x as u128); }
+                }
+            }
+            revs.sort(); revs.dedup();
+            let f = 0.7f32;
+            let nums = [format!("{}", f), format!("{}", f32::from_bits(f.to_bits() + 1)), format!("{}", f32::from_bits(f.to_bits() - 1))];
+            for m in &nums {
+                for l in ['F', 'G'] {
+                    for r in &revs {
+                        if let Ok(v) = GameVersion::from_str(&format!("{m}{l}{r}")) {
+                            if seen.insert(key(&v)) { vs.push(v); }
+                        }
+                    }
+                }
+            }
+        }
         let vs = Arc::new(vs);
         let n = vs.len() as u64;
         {
             let vs = vs.clone();
-            sites.push(Site::new("order-pairs", n * n, "all ordered pairs of the distinct versions parsed from the length <= 5 strings plus a stratified set (numbers x letters x revisions)", move |i, acc| {
+            sites.push(Site::new("order-pairs", n * n, "all ordered pairs of the distinct versions parsed from the length <= 5 strings plus a stratified set (numbers x letters x revisions) and a set with revisions around 2^8 .. 2^64 and numbers one float apart", move |i, acc| {
                 let a = &vs[(i / n) as usize];
                 let b = &vs[(i % n) as usize];
                 acc.eval();
